@@ -1,6 +1,6 @@
 (* C15 property theorems over the tables regenerated from the repository (Gen_Fields.v, Gen_MapRanges.v). *)
 From Coq Require Import ZArith List Bool String.
-From OG Require Import C15.Model C15.Proofs C15.Tables C15.Gen_Fields C15.Gen_MapRanges.
+From OG Require Import C15.Model C15.Proofs C15.Tables C15.Gen_Fields C15.Gen_MapRanges C15.Gen_Transient.
 Import ListNotations.
 Open Scope string_scope.
 
@@ -32,6 +32,17 @@ Print Assumptions C15_sites_classified.
 Theorem C15_shallow_known : forallb (fun p => pair_mem (fst p) (snd p) known_shallow) (shallow_of (in_scope types)) = true.
 Proof. vm_compute. reflexivity. Qed.
 Print Assumptions C15_shallow_known.
+
+(* the transient list is justified by a checked fact: the apply path touches those fields exactly at the reviewed places
+   (every read is preceded by a write that re-establishes the value on every replica, restored or not) *)
+Theorem C15_transient_access_reviewed : access_reviewed transient_access reviewed_access = true.
+Proof. vm_compute. reflexivity. Qed.
+Print Assumptions C15_transient_access_reviewed.
+
+(* every configuration switch the apply path reads is one the differential varies, or one fixed and named *)
+Theorem C15_switches_known : forallb (fun p => mem (fst p) (varied_switches ++ fixed_switches)) config_reads = true.
+Proof. vm_compute. reflexivity. Qed.
+Print Assumptions C15_switches_known.
 
 (* non-vacuity: the persistent part is not empty and the transient list only names existing fields *)
 Example C15_persistent_nonempty :
